@@ -37,6 +37,9 @@ pub struct Case {
     pub null: bool,
     pub after: usize,
     pub before: usize,
+    /// --passthru (then -A/-B are not given): every line is printed, the non-matching ones as context
+    #[serde(default)]
+    pub passthru: bool,
     pub multiline: bool,
     pub crlf: bool,
     pub invert: bool,
@@ -76,6 +79,7 @@ pub fn gen_case(t: &mut Tape) -> Case {
         input.splice(at..at, long);
     }
     let with_filename = t.chance(1, 2);
+    let passthru = t.chance(1, 8);
     let invert = mode != Mode::Vimgrep && t.chance(1, 8);
     // under -v the column field follows the pattern's matches, not the
     // reported lines: which records carry one is undocumented
@@ -90,8 +94,9 @@ pub fn gen_case(t: &mut Tape) -> Case {
         with_filename,
         heading: with_filename && t.chance(1, 3),
         null: with_filename && t.chance(1, 4),
-        after: t.small(3),
-        before: t.small(3),
+        after: if passthru { 0 } else { t.small(3) },
+        before: if passthru { 0 } else { t.small(3) },
+        passthru,
         multiline,
         crlf,
         invert,
@@ -143,7 +148,7 @@ fn parse_standard(out: &[u8], c: &Case) -> Result<Vec<Item>, String> {
     let with_filename = c.with_filename || vim;
     let heading = c.heading && !vim;
     let (n, col, b) = (c.line_number || vim, c.column || vim, c.byte_offset);
-    let ctx = c.after + c.before > 0;
+    let ctx = ctx_on(c);
     let mut items = vec![];
     let mut pos = 0;
     if out.is_empty() {
@@ -239,6 +244,10 @@ fn pat_cfg(c: &Case) -> PatCfg {
     }
 }
 
+fn ctx_on(c: &Case) -> bool {
+    c.after + c.before > 0 || c.passthru
+}
+
 fn args(c: &Case) -> Vec<String> {
     let mut a: Vec<String> = vec!["--no-config".into(), "--color".into(), "never".into(), "-a".into(), "-j1".into()];
     a.push(if c.mmap { "--mmap".into() } else { "--no-mmap".into() });
@@ -266,6 +275,9 @@ fn args(c: &Case) -> Vec<String> {
     }
     if c.mode == Mode::Vimgrep && c.null {
         a.push("--null".into());
+    }
+    if c.passthru {
+        a.push("--passthru".into());
     }
     if c.after > 0 {
         a.push(format!("-A{}", c.after));
@@ -469,7 +481,7 @@ fn check_inner(case: &Case) -> Verdict {
                         pending_sep = true;
                     }
                     Item::Rec(r) => {
-                        if r.lineno.is_none() && r.off.is_none() && r.is_match.is_none() && case.after + case.before > 0 && (r.body == b"--\n" || r.body == b"--\r\n") && find_line(None, None, &r.body, next_from).is_err() {
+                        if r.lineno.is_none() && r.off.is_none() && r.is_match.is_none() && ctx_on(case) && (r.body == b"--\n" || r.body == b"--\r\n") && find_line(None, None, &r.body, next_from).is_err() {
                             continue; // a separator in prefix-less output
                         }
                         // per-match records (--vimgrep) carry the offset of the match, as -o does
@@ -498,7 +510,7 @@ fn check_inner(case: &Case) -> Verdict {
                             // (--vimgrep -U prints only the first line of a multi-line match, so the
                             // lines in between are absent without a separator)
                             let located = (r.lineno.is_some() || (r.off.is_some() && !vim)) && !(vim && case.multiline);
-                            if case.after + case.before > 0 && !repeated && located {
+                            if ctx_on(case) && !repeated && located {
                                 let gap = idx > l + 1;
                                 if gap != pending_sep {
                                     return Verdict::Fail(fail(format!(
@@ -513,7 +525,7 @@ fn check_inner(case: &Case) -> Verdict {
                         pending_sep = false;
                         last_idx = Some(idx);
                         next_from = idx + 1;
-                        let is_match = r.is_match.unwrap_or(case.after + case.before == 0);
+                        let is_match = r.is_match.unwrap_or(!ctx_on(case));
                         if r.is_match == Some(false) {
                             n_ctx += 1;
                         } else {
@@ -644,8 +656,12 @@ fn check_inner(case: &Case) -> Verdict {
                     }
                 }
             }
+            if case.passthru && !case.multiline && !vim && n_match + n_ctx != lines.len() {
+                return Verdict::Fail(fail(format!("--passthru printed {} records for an input of {} lines", n_match + n_ctx, lines.len())));
+            }
             info.nontrivial = n_match > 0 && n_ctx > 0 && (invalid_utf8 || !input.is_ascii());
             info.class_if(n_ctx > 0, "has_context_records");
+            info.class_if(case.passthru, "passthru");
         }
         Mode::Json => {
             let mut state = 0; // 0 = before begin, 1 = inside, 2 = after end
@@ -768,6 +784,11 @@ fn check_inner(case: &Case) -> Verdict {
             if state == 1 {
                 return Verdict::Fail(fail("begin without end".into()));
             }
+            if case.passthru && !case.multiline && n_match + n_ctx != lines.len() {
+                return Verdict::Fail(fail(format!("--passthru --json reported {} lines for an input of {} lines", n_match + n_ctx, lines.len())));
+            }
+            info.class_if(case.passthru, "passthru");
+            info.class_if(case.passthru && n_match == 0 && n_ctx > 0, "passthru_without_any_match");
             info.nontrivial = n_match > 0 && n_ctx > 0 && (invalid_utf8 || !input.is_ascii());
             info.class_if(n_ctx > 0, "has_context_records");
             info.class_if(invalid_utf8 && n_match + n_ctx > 0, "json_with_invalid_utf8_input");
@@ -957,7 +978,7 @@ pub fn check_multi(mc: &MultiCase) -> Verdict {
         Mode::Json => "mode_json",
     });
     info.class_if(case.mode == Mode::Standard && case.with_filename && case.heading && both, "heading_blank_line_between_files");
-    info.class_if(case.mode != Mode::Json && !(case.mode == Mode::Standard && case.with_filename && case.heading) && case.after + case.before > 0 && both, "context_separator_between_files");
+    info.class_if(case.mode != Mode::Json && !(case.mode == Mode::Standard && case.with_filename && case.heading) && (case.after + case.before > 0) && both, "context_separator_between_files");
     Verdict::Pass(info)
 }
 
